@@ -37,6 +37,7 @@ type C12Sheet struct {
 	Markers  []C12Marker
 	CmdErr   int // value of -e (0 = option not given)
 	Delim    bool
+	LongLine bool // one legacy sample line is longer than 64 KiB
 	Text     string
 }
 
@@ -286,11 +287,28 @@ func c12RenderLegacy(r *rand.Rand, sh *C12Sheet) string {
 		b.WriteString("#exp\tsample\ttags\tforward_primer\treverse_primer\textra_information\n")
 	}
 	sep := []string{"\t", " ", "  "}[r.Intn(3)]
+	// now and then one sample line carries a very long free-text annotation (longer than the 64 KiB
+	// a line scanner accepts by default): the samples declared after it must still be read
+	long := -1
+	if r.Intn(8) == 0 {
+		n := 0
+		for _, m := range sh.Markers {
+			n += len(m.Samples)
+		}
+		long = r.Intn(max(1, n))
+		sh.LongLine = true
+	}
+	line := 0
 	for _, m := range sh.Markers {
 		fw, rv := c12Case(r, m.Fwd), c12Case(r, m.Rev)
 		for _, s := range m.Samples {
 			f := []string{s.Exp, s.Name, c12TagWord(r, s), fw, rv, "F"}
 			b.WriteString(strings.Join(f, sep))
+			line++
+			if line-1 == long {
+				fmt.Fprintf(&b, "%s@ note=%s; comment=%s;\n", sep, s.Extra, strings.Repeat("lorem ipsum ", 5500+r.Intn(3000)))
+				continue
+			}
 			switch r.Intn(3) {
 			case 0:
 				fmt.Fprintf(&b, "%s@ note=%s;", sep, s.Extra)
